@@ -40,6 +40,13 @@ def templates(tier):
         T.append(("elif", [If([(c1, [Asg("y", K(1))]), (c2, [Asg("y", K(2))])], [Asg("y", K(3))])]))
         T.append(("elif_noelse", [If([(c1, [Asg("y", K(1))]), (c2, [Asg("z", K(2))])])]))
         T.append(("elif3", [If([(c1, [Asg("y", K(1))]), (c2, [Asg("y", K(2))]), (C("gt", V("y"), K(0)), [Asg("y", K(4)), Asg("x", K(0))])], [Asg("z", V("x"))])]))
+    # longer chains whose conditions do not depend on what the arms assign (so that every truth assignment of the conditions is met):
+    # the arm taken is the FIRST true one, also when an earlier arm was taken and a later condition is false
+    ch = [CV("f"), C("eq", V("x"), K(1)), C("lt", V("x"), V("z")), C("ge", V("z"), K(1))]
+    T.append(("elifchain3", [If([(ch[0], [Asg("y", K(1))]), (ch[1], [Asg("y", K(2))]), (ch[2], [Asg("y", K(3))])], [Asg("y", K(4))])]))
+    T.append(("elifchain3_noelse", [If([(ch[0], [Asg("y", K(1))]), (ch[1], [Asg("y", K(2))]), (ch[2], [Asg("y", K(3))])])]))
+    T.append(("elifchain4", [If([(ch[1], [Asg("y", K(1))]), (ch[0], [Asg("y", K(2))]), (ch[2], [Asg("y", K(3))]), (ch[3], [Asg("y", K(5))])], [Asg("y", K(4))])]))
+    T.append(("elifchain4_noelse", [If([(ch[2], [Asg("y", K(1))]), (ch[1], [Asg("y", K(2))]), (ch[0], [Asg("y", K(3))]), (ch[3], [Asg("y", Add(V("y"), K(5)))])])]))
     # nesting
     T.append(("nested", [If([(conds[0], [If([(conds[1], [Asg("z", K(1))])], [Asg("z", K(2))]), Asg("y", Add(V("z"), K(1)))])], [If([(conds[3], [Asg("y", K(9))])])])]))
     T.append(("nested2", [If([(conds[3], [Asg("x", Add(V("x"), K(1))), If([(C("gt", V("x"), V("y")), [Asg("y", V("x"))])])])]), Asg("z", Add(V("y"), V("x")))]))
@@ -130,6 +137,17 @@ def mechanism_part(run, tier):
     if res.violated:
         run.violation({"stage": "design", "invariant": res.violated, "tlc_state": res.state, "summary": "Branching.tla: the transcribed merge mechanism differs from native control flow: %s" % res.state.get("hist")})
         return
+    if tier != "quick":
+        # longer chains at depth 1 (if / elif / elif / else with assignments in between need 7 events): design check only, the
+        # code side of such chains is bound by the elifchain* program texts
+        with common.scratch("br7_") as d:
+            cf = os.path.join(d, "gen7.cfg")
+            open(cf, "w").write("SPECIFICATION Spec\nCONSTANT MaxLen = 7\nCONSTANT MaxDepth = 1\nINVARIANT Inv_Native\nINVARIANT Inv_NoSilentLoss\nCHECK_DEADLOCK FALSE\n")
+            res7 = tlc.run("Branching", cfg=cf, workers=12, heap="8g")
+        run.add_tlc(res7, "Branching.tla: mechanism == native for all event sequences of length <= 7 at depth 1")
+        if res7.violated:
+            run.violation({"stage": "design", "invariant": res7.violated, "tlc_state": res7.state, "summary": "Branching.tla (length 7, depth 1) violates %s" % res7.violated})
+            return
     behs = [json.loads(json.loads(r)) for r in sorted(set(res.tagged("BEH")))]
     if len(behs) > 30000:
         behs = behs[::len(behs) // 30000 + 1]
